@@ -96,7 +96,7 @@ fn worker(args: &[String]) -> i32 {
     let thorough = arg(args, "--tier").unwrap_or("quick") == "thorough";
     let known: Vec<String> = arg(args, "--known").map(|k| k.split("||").filter(|s| !s.is_empty()).map(|s| s.to_string()).collect()).unwrap_or_default();
     if variant == "teardown" {
-        return teardown_worker(args, seed, wid, cases, out, &known);
+        return teardown_worker(args, prop, seed, wid, cases, out, &known);
     }
     if variant == "flushrace" {
         return flushrace_worker(prop, seed, wid, cases, out, &known);
@@ -525,8 +525,54 @@ fn prerace_worker(seed: u64, wid: u64, cases: u32, out: &str, known: &[String]) 
     0
 }
 
-fn teardown_worker(args: &[String], seed: u64, wid: u64, cases: u32, out: &str, known: &[String]) -> i32 {
+/// C08 over thread-local teardown (hooked build): after the case's thread was joined and two
+/// cycles have run, the collector's counters are read. Only the shapes listed here are verdicts.
+fn teardown_retained(c: &teardown::TdCase) -> Vec<String> {
+    #[allow(unused_mut)]
+    let mut out = vec![];
+    #[cfg(fastrace_verif)]
+    {
+        // what earlier cases of this process left behind (a listed finding) is not this case's
+        fastrace::flush();
+        let st0 = fastrace::verif::collector_stats();
+        teardown::run(c);
+        fastrace::flush();
+        fastrace::flush();
+        let mut st = fastrace::verif::collector_stats();
+        st.active_collectors = st.active_collectors.saturating_sub(st0.active_collectors);
+        st.buffered_span_sets = st.buffered_span_sets.saturating_sub(st0.buffered_span_sets);
+        st.danglings = st.danglings.saturating_sub(st0.danglings);
+        st.registered_receivers = st.registered_receivers.saturating_sub(st0.registered_receivers);
+        if st.registered_receivers != 0 {
+            out.push(format!("receivers-after-teardown: the case's thread has exited and two cycles have run, but {} command queue(s) are still registered ({:?})", st.registered_receivers, st));
+        }
+        if st.active_collectors != 0 || st.buffered_span_sets != 0 || st.danglings != 0 {
+            // structural predicate of the listed finding: the user's thread-local was registered
+            // before the library's (so it is destroyed after the thread's command sender) and a
+            // root created by the body is still alive when the body ends: its finish (or cancel)
+            // signal is issued when the sender no longer exists
+            let mut stack: Vec<bool> = vec![];
+            for op in &c.body {
+                match op {
+                    teardown::TdOp::Root => stack.push(true),
+                    teardown::TdOp::ChildOfStash if !stack.is_empty() => stack.push(false),
+                    teardown::TdOp::ChildOfLocal => stack.push(false),
+                    teardown::TdOp::DropStashedSpan => {
+                        stack.pop();
+                    }
+                    _ => {}
+                }
+            }
+            let shape = if c.user_tls_first && stack.iter().any(|r| *r) { ":root-finished-after-sender-destroyed" } else { "" };
+            out.push(format!("trace-state-after-teardown{}: every span of the case was dropped by the end of the thread's teardown and two cycles have run, but the collector still holds {:?} more than before the case (user thread-local registered {} the library's)", shape, st, if c.user_tls_first { "before" } else { "after" }));
+        }
+    }
+    out
+}
+
+fn teardown_worker(args: &[String], prop: &str, seed: u64, wid: u64, cases: u32, out: &str, known: &[String]) -> i32 {
     let _ = args;
+    let c08 = prop == "C08";
     quiet_panics();
     exec::ensure_reporter_api(false);
     let strategy = teardown::strategy();
@@ -537,9 +583,10 @@ fn teardown_worker(args: &[String], seed: u64, wid: u64, cases: u32, out: &str, 
     let st = std::cell::RefCell::new((0u64, HashSet::<u64>::new(), Vec::<serde_json::Value>::new(), false));
     let res = runner.run(&strategy, |c| {
         // a crash (abort) kills the process: leave the case behind for the driver
-        std::fs::write(&progress, serde_json::to_string(&json!({"property": "C07", "variant": "teardown", "target": "plain", "program": c, "expect": "pass"})).unwrap()).ok();
-        let fails = teardown::run(&c);
-        let sigs: Vec<String> = fails.iter().map(|f| format!("teardown-panic:{}", f.split(':').take(2).collect::<Vec<_>>().join(":"))).collect();
+        std::fs::write(&progress, serde_json::to_string(&json!({"property": prop, "variant": "teardown", "target": if c08 { "hooked" } else { "plain" }, "program": c, "expect": "pass"})).unwrap()).ok();
+        // C08: panics are C07's business; here only what the collector retains counts
+        let fails = if c08 { teardown_retained(&c) } else { teardown::run(&c) };
+        let sigs: Vec<String> = fails.iter().map(|f| teardown_sig(c08, f)).collect();
         let unknown: Vec<&String> = sigs.iter().filter(|s| !known.contains(s)).collect();
         let mut s = st.borrow_mut();
         if !s.3 {
@@ -564,13 +611,13 @@ fn teardown_worker(args: &[String], seed: u64, wid: u64, cases: u32, out: &str, 
     let s = st.into_inner();
     let mut failure = serde_json::Value::Null;
     if let Err(TestError::Fail(reason, c)) = &res {
-        let fails = teardown::run(c);
+        let fails = if c08 { teardown_retained(c) } else { teardown::run(c) };
         failure = json!({"signature": reason.to_string(), "program": c, "violations": fails.iter().map(|f| json!({"sig": reason.to_string(), "msg": f})).collect::<Vec<_>>()});
     }
     let mut nt: Vec<u64> = s.1.iter().cloned().collect();
     nt.sort();
     let res = json!({
-        "property": "C07", "variant": "teardown", "cancelable": false, "seed": seed, "worker": wid,
+        "property": prop, "variant": "teardown", "cancelable": false, "seed": seed, "worker": wid,
         "evaluations": s.0, "nontrivial_hashes": nt.iter().map(|h| format!("{:016x}", h)).collect::<Vec<_>>(),
         "labels": {"teardown_case": s.0}, "excluded": {}, "known_hits": {}, "samples": s.2,
         "records_delivered": 0, "ops_executed": 0, "ops_skipped": 0, "failure": failure,
@@ -579,6 +626,14 @@ fn teardown_worker(args: &[String], seed: u64, wid: u64, cases: u32, out: &str, 
     });
     std::fs::File::create(out).unwrap().write_all(serde_json::to_string(&res).unwrap().as_bytes()).unwrap();
     0
+}
+
+fn teardown_sig(c08: bool, f: &str) -> String {
+    if c08 {
+        f.split(": ").next().unwrap_or("").to_string()
+    } else {
+        format!("teardown-panic:{}", f.split(':').take(2).collect::<Vec<_>>().join(":"))
+    }
 }
 
 fn replay(args: &[String]) -> i32 {
@@ -667,8 +722,9 @@ fn replay(args: &[String]) -> i32 {
         quiet_panics();
         exec::ensure_reporter_api(false);
         let c: teardown::TdCase = serde_json::from_value(v["program"].clone()).expect("teardown case");
-        let fails = teardown::run(&c);
-        println!("{}", serde_json::to_string_pretty(&json!({"violations": fails.iter().map(|f| json!({"sig": format!("teardown-panic:{}", f.split(':').take(2).collect::<Vec<_>>().join(":")), "msg": f})).collect::<Vec<_>>(), "narrative": []})).unwrap());
+        let c08 = v["property"].as_str() == Some("C08");
+        let fails = if c08 { teardown_retained(&c) } else { teardown::run(&c) };
+        println!("{}", serde_json::to_string_pretty(&json!({"violations": fails.iter().map(|f| json!({"sig": teardown_sig(c08, f), "msg": f})).collect::<Vec<_>>(), "narrative": []})).unwrap());
         return if fails.is_empty() { 0 } else { 1 };
     }
     let prop = v["property"].as_str().unwrap();
